@@ -1,5 +1,5 @@
 (* Plane.tilted: what holds of every accepted result, whatever cosine / sine the trigonometric library returned (C13). *)
-From Coq Require Import ZArith Reals Lra Psatz List Bool Lia Nsatz.
+From Coq Require Import ZArith Reals Lra Psatz List Bool Lia Nsatz Arith.
 From PW Require Import Num NumR Vec Mat NpList Result.
 From PW.model Require Import M_plane M_plane_ctor.
 From PW.proofs Require Import P_vec P_plane P_plane_ctor.
@@ -201,7 +201,8 @@ Proof.
   intros Hlen Hc. destruct (fit_normal_optimal _ _ Hc) as [Hn Hopt].
   set (n := fit_normal ROps (eigh (cov ROps ps))) in *.
   exists (MkPlane (centroid ROps ps) n). split; [|split; [reflexivity|split; [exact Hn|]]].
-  - unfold fit_from_points. fold n. apply ctor_unit; [apply Rlt_le, default_atol_value|exact Hn].
+  - unfold fit_from_points. replace (length ps <=? 1)%nat with false by (symmetry; apply Nat.leb_gt; lia).
+    fold n. apply ctor_unit; [apply Rlt_le, default_atol_value|exact Hn].
   - intros m Hm. cbn [pnormal].
     assert (Hk : 0 < nlen ROps ps - 1).
     { unfold nlen. rops. assert (2 <= IZR (Z.of_nat (length ps))) by (apply IZR_le; lia). lra. }
@@ -382,4 +383,18 @@ Proof.
   split; [reflexivity|]. split; [exact Hn1|]. rewrite !sd_is_dot. cbn [pref pnormal]. split.
   - destruct cop, n'. vunf. ring.
   - fold (tilt_new ROps newp cop). fold vn. rewrite vdot_comm. exact Hn2.
+Qed.
+
+(* fewer than two points: the eigen-solver fails on the NaN covariance *)
+Lemma fit_too_few_points eigh ps : (length ps <= 1)%nat -> fit_from_points ROps eigh ps = Raise LinAlgError.
+Proof. intros H. unfold fit_from_points. replace (length ps <=? 1)%nat with true by (symmetry; apply Nat.leb_le; exact H). reflexivity. Qed.
+
+(* ---- concrete instances of the conditional theorems' hypotheses ---------------------------------------- *)
+Definition six_points : list (vec3 R) := [V3 3 0 0; V3 (-3) 0 0; V3 0 2 0; V3 0 (-2) 0; V3 0 0 1; V3 0 0 (-1)].
+Definition six_points_eig : eig3 R := Eig3 (18 / 5) (8 / 5) (2 / 5) (V3 1 0 0) (V3 0 1 0) (V3 0 0 1).
+Lemma six_points_contract : eig_contract (cov ROps six_points) six_points_eig.
+Proof.
+  unfold eig_contract, six_points_eig, cov, cov_entry, centroid, vsum, nlen, nsum, six_points, n1.
+  cbn [ev0 ev1 ev2 eu0 eu1 eu2 length map fold_left Z.of_nat Pos.of_succ_nat Pos.succ vget]. rops.
+  munf. repeat split; try (apply V3_ext; field); field.
 Qed.
